@@ -170,7 +170,7 @@ var exoticPtrs = func() []*int {
 
 func genValue(exotic bool, k int, id int64) any {
 	if !exotic {
-		return val{K: int32(k), ID: id}
+		return mkVal(k, id)
 	}
 	switch id % 7 {
 	case 0:
@@ -186,7 +186,7 @@ func genValue(exotic bool, k int, id int64) any {
 	case 5:
 		return [2]int{int(id), k}
 	default:
-		return val{K: int32(k), ID: id}
+		return mkVal(k, id)
 	}
 }
 
@@ -288,6 +288,19 @@ func applyCop(in *seqInst, op cop, exotic bool) (r cres) {
 			r.Visited = append(r.Visited, kvp{k, v})
 			return op.StopAt == 0 || n < op.StopAt
 		})
+	case "RangeAdv":
+		// the visitor moves the clock past some expiry instants on its first call
+		start := vshim.VNow()
+		first := true
+		c.Range(func(k int, v any) bool {
+			r.Visited = append(r.Visited, kvp{k, v})
+			if first {
+				first = false
+				vshim.SetVNow(op.Now)
+			}
+			return true
+		})
+		vshim.SetVNow(start) // every instance starts its traversal at the same instant
 	case "RangeNil":
 		c.RangeNil()
 	case "Items":
@@ -373,7 +386,7 @@ func (sr *seqRunner) runSeqCase(cs *seqCase) (nontrivial bool, fp uint64) {
 		kclass := mdl.class(op.K, now)
 		keyed := true
 		switch op.Op {
-		case "DeleteExpired", "Range", "RangeNil", "Items", "Clear", "Count", "DefaultExpiration", "SetDefaultExpiration", "HasCallback", "SetCallback":
+		case "DeleteExpired", "Range", "RangeAdv", "RangeNil", "Items", "Clear", "Count", "DefaultExpiration", "SetDefaultExpiration", "HasCallback", "SetCallback":
 			keyed = false
 		}
 		if keyed {
@@ -518,6 +531,28 @@ func (sr *seqRunner) runSeqCase(cs *seqCase) (nontrivial bool, fp uint64) {
 				}
 				if len(r.Visited) != wantN {
 					bad("range", "Range visit count", "%s: Range (stop=%d) made %d visits, model has %d live entries => want %d", step, name, op.StopAt, len(r.Visited), len(liveNow), wantN)
+				}
+			case "RangeAdv":
+				// entries unexpired when the traversal began may be visited; those that stay
+				// unexpired until the end must be
+				atStart, atEnd := mdl.live(now), mdl.live(op.Now)
+				seen := map[int]bool{}
+				for _, kv := range r.Visited {
+					want, ok := atStart[kv.K]
+					switch {
+					case kv.K < 0 || !ok:
+						bad("range", "Range visits an entry that was not live when the traversal began", "%s: Range visited k%d (%s)", step, name, kv.K, mdl.class(kv.K, now))
+					case seen[kv.K]:
+						bad("range", "Range visits a key twice", "%s: Range visited k%d twice", step, name, kv.K)
+					case want != kv.V:
+						bad("range", "Range visits a stale/foreign value", "%s: Range visited k%d=%s, model %s", step, name, kv.K, fmtVal(kv.V), fmtVal(want))
+					}
+					seen[kv.K] = true
+				}
+				for k := range atEnd {
+					if _, ok := atStart[k]; ok && !seen[k] {
+						bad("range", "Range misses an entry that stayed unexpired for the whole traversal", "%s: k%d not visited although live before and after the clock moved", step, name, k)
+					}
 				}
 			case "Items":
 				liveNow := mdl.live(now)
@@ -673,6 +708,14 @@ func (sr *seqRunner) runSeqCase(cs *seqCase) (nontrivial bool, fp uint64) {
 			mdl.def, mdl.defKnown = op.D, true
 		case "SetCallback":
 			mdl.cbID = op.CbID
+		case "RangeAdv":
+			now = op.Now
+			vshim.SetVNow(now)
+			for k, me := range mdl.m {
+				if _, vis := mdl.vis(k, now); !vis {
+					me.maybeGone = true
+				}
+			}
 		case "Range", "Items":
 			// a traversal may clean expired entries it meets
 			for k, me := range mdl.m {
